@@ -226,10 +226,8 @@ func checkC14(p *Program, r *Reporter) {
 		r.Violate("E4-CYCLE", shortFn(csc), "hit-test", p.pos(csc.Pos()), "no comparison with the configured relative sequence number found", nil)
 		return
 	}
-	q := newDepQueryLocal(p, func(v ssa.Value) bool {
-		c, ok := v.(*ssa.Call)
-		return ok && c.Call.StaticCallee() != nil && c.Call.StaticCallee().Name() == "getStartNr"
-	})
+	// the configured start number: a load of ResponseConfig.StartNr (the query follows the getter's result into it)
+	q := newDepQueryLocal(p, onField("app.ResponseConfig.StartNr"))
 	r.Decide(q.depends(hit, 0), "E4-CYCLE", shortFn(csc), "hit-test<-startNr", p.pos(hit.Pos()), "the hit index counts from the configured start number",
 		"the hit index cannot depend on the configured start number: with snr_N other segments are hit", nil)
 	// loop-carried values
